@@ -34,6 +34,8 @@ def run(ctx):
     ctx.guard(new_order, ctx)
     from . import c10 as _c10
     ctx.shared(_c10.access, ctx)            # referential attributes are read through Class.__getattr__ / the declared cell
+    from . import c09 as _c09
+    ctx.shared(_c09.nav, ctx)               # "navigation is symmetric" is observed through MetaClass.navigate / _find_assoc_links and the chain helpers
     ctx.assume('induction hypothesis for C02-ATOMIC/unrelate: the two directed links mirror each other '
                'before the call (established by C02-PAIR + C02-ATOMIC for every mutator)')
     ctx.assume('no code outside xtuml/ and bridgepoint/ mutates Link dictionaries directly')
@@ -131,6 +133,7 @@ def linkops(ctx):
         ('%s in %s' % (B, slot), lambda e, s, tr: _need_has(s) and s['pair']),
         ('%s not in %s' % (B, slot), lambda e, s, tr: _need_has(s) and not s['pair']),
         ('not %s' % slot, lambda e, s, tr: _need_has(s) and not s['nonempty']),
+        ('self.many', lambda e, s, tr: s['many']),
     ]
     for p in t:
         atoms.append((p, lambda e, s, tr: _need_has(s) and s['nonempty']))
@@ -175,10 +178,12 @@ def linkops(ctx):
     effects = [('%s._M(%s)' % (slot, B), lambda e, s, tr: remove(e, s, tr) if e['_M'] in ('remove', 'discard') else False),
                ('del %s' % slot, del_slot)]
     it = absint.Interp(fn, atoms, effects)
-    for has, pair, others in itertools.product([0, 1], [0, 1], [0, 1, 2]):
+    # a single-valued end can hold several partners too (check=False while loading): the cardinality of the end does not change
+    # what disconnect owes
+    for has, pair, others, many in itertools.product([0, 1], [0, 1], [0, 1, 2], [0, 1]):
         if (pair and not has) or (others and not has):
             continue
-        st = dict(has=bool(has), pair=bool(pair), others=others, nonempty=bool(pair or others))
+        st = dict(has=bool(has), pair=bool(pair), others=others, nonempty=bool(pair or others), many=bool(many))
         st0 = dict(st)
         desc = 'disconnect%s' % _fmt(st0)
         try:
@@ -350,6 +355,10 @@ def _relate_table(ctx, r, am, qual, method, exc_name):
         ('None in (_A, _B)', lambda e, s, tr: any(s['none'].get(src(e[k])) for k in ('_A', '_B'))),
         ('_A is None', lambda e, s, tr: s['none'].get(src(e['_A']), False) if src(e['_A']) in s['none'] else None),
         ('_A is not None', lambda e, s, tr: (not s['none'][src(e['_A'])]) if src(e['_A']) in s['none'] else None),
+        ('_A is not _B', lambda e, s, tr: _identity_atom(e, s, names, (P_FROM, P_TO), True)),
+        ('_A is _B', lambda e, s, tr: _identity_atom(e, s, names, (P_FROM, P_TO), False)),
+        ('_A != _B', lambda e, s, tr: _identity_atom(e, s, names, (P_FROM, P_TO), True)),
+        ('_A == _B', lambda e, s, tr: _identity_atom(e, s, names, (P_FROM, P_TO), False)),
         ('_A', lambda e, s, tr: _name_atom(e, s, tr, linkop)),
     ]
 
@@ -391,15 +400,19 @@ def _relate_table(ctx, r, am, qual, method, exc_name):
 
     nbits = len(sites)
     count = 0
-    for nf, nt in itertools.product([False, True], repeat=2):
+    # the two instances may be one and the same (an instance related to itself across a reflexive association): both directed
+    # links are separate tables then too, and the same obligations hold
+    for nf, nt, same in itertools.product([False, True], repeat=3):
+        if same and nf != nt:
+            continue
         for bits in itertools.product([False, True], repeat=nbits):
-            st = {'none': {P_FROM: nf, P_TO: nt}, 'bits': bits, 'vars': {}}
+            st = {'none': {P_FROM: nf, P_TO: nt}, 'bits': bits, 'vars': {}, 'same': same}
             out, tr = it.run(st)
             ops = [_canon_op(t) for t in tr if t[0] == 'op']
             tr = [_canon_op(t) if t[0] == 'op' else t for t in tr]
             used = len(ops)
-            desc = '%s(none_from=%d,none_to=%d,results=%s)' % (fn.name, nf, nt,
-                                                           ''.join('T' if b else 'F' for b in bits))
+            desc = '%s(none_from=%d,none_to=%d,%sresults=%s)' % (fn.name, nf, nt, 'same_instance,' if same else '',
+                                                             ''.join('T' if b else 'F' for b in bits))
             count += 1
             if nf or nt:
                 ok = out.kind == 'return' and not ops and isinstance(out.value, ast.Constant) and not out.value.value
@@ -472,6 +485,17 @@ def _relate_table(ctx, r, am, qual, method, exc_name):
             construct=qual, key='find-link-args',
             msg='%s calls _find_link(%s); expected (%s)' % (fn.name, ', '.join(names.get('args', [])), ', '.join(want_args)))
     return count
+
+
+def _identity_atom(e, s, names, params, negated):
+    '''`a is b` / `a is not b` (== / !=) between the two instances of the call'''
+    a, b = e['_A'], e['_B']
+    insts = set(params) | {names.get('first'), names.get('second')}
+    if isinstance(a, ast.Name) and isinstance(b, ast.Name) and a.id in insts and b.id in insts:
+        if a.id == b.id:
+            return not negated
+        return (not s['same']) if negated else s['same']
+    return None
 
 
 def _name_atom(e, s, tr, linkop):
